@@ -820,6 +820,10 @@ func (m *Manager) isCriticalTarget(target controlcommands.MesosCommandTarget) bo
 }
 
 func (m *Manager) transitionTasks(envId uid.ID, tasks Tasks, src string, event string, dest string, commonArgs controlcommands.PropertyMap) error {
+	if len(tasks) == 0 {
+		// nothing to command: the transition trivially succeeds (a command without targets would come back as a nil response)
+		return nil
+	}
 	notify := make(chan controlcommands.MesosCommandResponse)
 	receivers, err := tasks.GetMesosCommandTargets()
 	if err != nil {
